@@ -35,6 +35,7 @@ static local_fn LOCAL[4] = { is_822_local, is_5321_local, is_5322_local, is_6531
 static eav_t EAV[4];
 
 static int C_L1, C_L2, C_L2P, C_L3, C_U, C_ACC, C_REJ, C_ANY, C_IMPLACC;
+static int g_tails = 1;
 
 static void setup_objects(void) {
     static const EAV_RFC rfc[4] = { EAV_RFC_822, EAV_RFC_5321, EAV_RFC_5322, EAV_RFC_6531 };
@@ -102,6 +103,20 @@ static void check_local(const char *sub, int mode, const unsigned char *s, size_
         mc_violation(sub, n > 64 ? "email:lpart>64-accepted" : why_of(mode, s, n, exp2, -e2, "email"), "", cfg, s, n, "eav_is_email(L@ok.com) mode %s: reference %s, library returned %d errcode=%d", mode_name(mode), exp2 == R_ACC ? "ACCEPT" : "REJECT", r2, e2);
     if (rc0 != rc1)
         mc_violation(sub, "depends-on-byte-after-end", "", cfg, s, n, "is_%s_local depends on the byte after the local part: rc=%d with NUL, rc=%d with '@'", mode_name(mode), rc0, rc1);
+    /* more contexts: the range [start,end) sits in the middle of a longer buffer - whatever follows `end' must not matter
+     * (a closing quote, continuation bytes of a truncated character, a folding tail, ...) */
+    if (g_tails) {
+        static const char *const TAIL[] = { " \"", "\"", "a\"", "\x80\x80\x80", "\xa9", ".", "\\\"", "\r\n \"", "\n \"a", " ", "\t\"." };
+        for (unsigned t = 0; t < sizeof TAIL / sizeof TAIL[0]; t++) {
+            size_t tl = strlen(TAIL[t]); memcpy(buf + n, TAIL[t], tl + 1);
+            int rct = LOCAL[mode]((const char *)buf, (const char *)buf + n);
+            MC_ADD(C_EVAL, 1);
+            /* decisions only: which of two true reasons is reported for a rejected range may depend on the byte at `end'
+             * (RFC 822 folding looks at it), the decision may not */
+            if ((rct == 0) != (rc0 == 0)) { char w[64]; snprintf(w, sizeof w, "depends-on-bytes-after-end:tail-%u", t);
+                mc_violation(sub, w, "", cfg, s, n, "is_%s_local(start,end) with more text after end: rc=%d, with a NUL at end rc=%d", mode_name(mode), rct, rc0); }
+        }
+    }
 #ifdef C03
     /* pure-ASCII local parts: mode 6531 == mode 5321 (differential, no model) */
     int ascii = 1; for (size_t i = 0; i < n; i++) if (s[i] >= 0x80) { ascii = 0; break; }
